@@ -68,6 +68,9 @@ class Handlers(object):
 
     def EHLO(self, reply, ehlo_as):
         self._rec('EHLO', ehlo_as)
+        if ehlo_as.startswith('refused'):
+            reply.code = '550'
+            reply.message = '5.7.1 not you'
 
     def HELO(self, reply, ehlo_as):
         self._rec('HELO', ehlo_as)
@@ -439,7 +442,9 @@ def run_auth(case):
             w.send(line + b'\r\n')
             return w.read_reply()
 
-        if position != 'before-ehlo':
+        if position == 'after-refused-ehlo' and tls_mode != 'starttls':
+            cmd(b'EHLO refused.example')         # answered 550 by the application: there is still no EHLO identity
+        elif position != 'before-ehlo':
             r = cmd(b'EHLO c.example')
             if tls_mode == 'starttls':
                 r = cmd(b'STARTTLS')
@@ -447,7 +452,7 @@ def run_auth(case):
                     return [('C08:starttls-refused', '%s: %r' % (desc, r))], False
                 chan = client_ctx().wrap_socket(sock, server_hostname='peer.example')
                 w = Wire(chan)
-                r = cmd(b'EHLO c.example')
+                r = cmd(b'EHLO refused.example' if position == 'after-refused-ehlo' else b'EHLO c.example')
         if position in ('after-success', 'after-success-reehlo'):
             r = cmd(b'AUTH PLAIN ' + b64(b'\x00first\x00pw').encode())
             if r is None or r[0] not in ('235',):
@@ -519,7 +524,7 @@ def run_auth(case):
         code = final[0]
         happy_shape = shape in ('initial', 'challenge') and mech != 'UNKNOWN'
         # 1. position rules
-        if position in ('before-ehlo', 'after-success', 'after-success-reehlo', 'in-transaction'):
+        if position in ('before-ehlo', 'after-refused-ehlo', 'after-success', 'after-success-reehlo', 'in-transaction'):
             if not code.startswith('5') or auth_cbs:
                 out.append(('C08:auth-allowed-in-wrong-position:%s' % position, '%s: reply %s callbacks %d' % (desc, code, len(auth_cbs))))
         # 2. plain-text mechanisms need TLS
@@ -726,7 +731,7 @@ def auth_table():
                     continue
                 if mech == 'CRAM-MD5' and shape.startswith('badutf8'):
                     continue
-                for position in ('normal', 'before-ehlo', 'after-success', 'after-success-reehlo', 'in-transaction'):
+                for position in ('normal', 'before-ehlo', 'after-refused-ehlo', 'after-success', 'after-success-reehlo', 'in-transaction'):
                     if position != 'normal' and shape not in ('initial', 'challenge'):
                         continue
                     for k, creds in enumerate(CREDS if (position == 'normal' and shape in ('initial', 'challenge')) else CREDS[:1]):
@@ -782,7 +787,7 @@ def replay(case):
         if fam == 'auth':
             if case['tls'] not in ('none', 'starttls', 'immediate') or case['mech'] not in ('PLAIN', 'LOGIN', 'CRAM-MD5', 'UNKNOWN') \
                     or case['shape'] not in ('initial', 'challenge', 'cancel', 'badb64', 'equals', 'noarg', 'badutf8', 'badutf8-challenge') \
-                    or case['position'] not in ('normal', 'before-ehlo', 'after-success', 'after-success-reehlo', 'in-transaction'):
+                    or case['position'] not in ('normal', 'before-ehlo', 'after-refused-ehlo', 'after-success', 'after-success-reehlo', 'in-transaction'):
                 return []
             case = dict(case, creds=[str(x) for x in case['creds']][:3])
             if len(case['creds']) != 3:
